@@ -655,11 +655,17 @@ func runC06(c *an.Ctx) {
 			if !isByteSlicePtr(x.Type()) {
 				continue
 			}
-			if _, isDefer := call.(*ssa.Defer); isDefer {
-				c.Ok("C06-R2", an.FnKey(fn)+" defer Put", call.Pos(), "deferred Put runs after every use in the function")
+			c.Analysed(an.FnKey(fn))
+			_, isDefer := call.(*ssa.Defer)
+			if mc := escapingCapture(fn, x); mc != nil && (isDefer || an.CanReach(mc, call)) {
+				c.Bad("C06-R2", an.FnKey(fn)+" Put after hand-over", call.Pos(),
+					"receive buffer captured by the asynchronous closure created at %s is returned to the pool by the creating function", c.Pos(mc.Pos()))
 				continue
 			}
-			c.Analysed(an.FnKey(fn))
+			if isDefer {
+				c.Ok("C06-R2", an.FnKey(fn)+" defer Put", call.Pos(), "deferred Put runs after every use in the function; the buffer is not handed to an asynchronous closure")
+				continue
+			}
 			key := an.FnKey(fn) + " Put(" + x.Name() + ")"
 			if use := useAfter(c, call, x); use != nil {
 				c.Bad("C06-R2", key, call.Pos(), "receive buffer used at %s after being returned to the pool", c.Pos(use.Pos()))
@@ -757,4 +763,47 @@ func refLike(t types.Type) bool {
 		return true
 	}
 	return false
+}
+
+// escapingCapture returns a closure creation in fn that captures x (or the
+// variable x was loaded from) and is handed to another function or started
+// with go, i.e. may run after fn has returned.
+func escapingCapture(fn *ssa.Function, x ssa.Value) *ssa.MakeClosure {
+	var cell ssa.Value
+	if ld, ok := x.(*ssa.UnOp); ok && ld.Op == token.MUL {
+		cell = ld.X
+	}
+	var res *ssa.MakeClosure
+	an.Instrs(fn, func(in ssa.Instruction) {
+		mc, ok := in.(*ssa.MakeClosure)
+		if !ok || res != nil {
+			return
+		}
+		captures := false
+		for _, b := range mc.Bindings {
+			if b == x || (cell != nil && b == cell) {
+				captures = true
+			}
+		}
+		if !captures {
+			return
+		}
+		for _, r := range *mc.Referrers() {
+			switch u := r.(type) {
+			case *ssa.Go:
+				res = mc
+			case *ssa.Defer:
+				// runs before fn returns
+			case *ssa.Call:
+				if u.Call.Value != mc { // passed as an argument
+					res = mc
+				}
+			default:
+				if _, isDbg := r.(*ssa.DebugRef); !isDbg {
+					res = mc // stored somewhere
+				}
+			}
+		}
+	})
+	return res
 }
